@@ -37,7 +37,8 @@ def model(prog, parsed, script, fname):
     segs = []
     stats = {'next': 0, 'previous': 0, 'previous_at_start': 0, 'run': 0, 'state': 0, 'break_list': 0, 'break_toggle': 0,
              'break_beyond_len': 0, 'break_unparsable': 0, 'other': 0, 'max_history': 1, 'run_stop_breakpoint': 0,
-             'run_to_end': 0, 'program_exit': 0, 'steps': 0}
+             'run_to_end': 0, 'program_exit': 0, 'steps': 0, 'max_back_chain': 0, 'longest_run_steps': 0}
+    chain = [0]
 
     def flush(ev):
         o, e = ''.join(pend_out), ''.join(pend_err)
@@ -79,6 +80,8 @@ def model(prog, parsed, script, fname):
             segs.append(ev)
             p = line.strip(' \t').split(' ')
             c = p[0]
+            if c not in ('previous', 'p', 'state', 's'):
+                chain[0] = 0
             if c in ('next', 'n'):
                 stats['next'] += 1
                 loc = hist[-1][1]
@@ -89,15 +92,23 @@ def model(prog, parsed, script, fname):
                 stats['previous'] += 1
                 if len(hist) > 1:
                     hist.pop()
+                    chain[0] += 1
+                    stats['max_back_chain'] = max(stats['max_back_chain'], chain[0])
+                    if chain[0] >= 64 and stats.get('_armed'):
+                        stats['long_run_then_long_back'] = 1
                 else:
                     stats['previous_at_start'] += 1
             elif c in ('run', 'r'):
                 stats['run'] += 1
+                s0 = stats['steps']
                 step(ev)
                 while hist[-1][1] < n and hist[-1][1] not in bps:
                     step(ev)
+                stats['longest_run_steps'] = max(stats['longest_run_steps'], stats['steps'] - s0)
                 if hist[-1][1] < n:
                     stats['run_stop_breakpoint'] += 1
+                    if stats['steps'] - s0 >= 64:
+                        stats['_armed'] = 1
                     flush(ev)
                 else:
                     stats['run_to_end'] += 1
@@ -181,7 +192,23 @@ CMDS = ['n', 'n', 'n', 'next', 'p', 'previous', 'p', 'r', 'run', 's', 'state', '
         'b 0', 'b 1', 'b 2', 'b 3', 'b 99', 'b -1', 'b x', 'b  2', 'b +1', 'b 18446744073709551616', 'b 007', 'next now', 'S', '  s  ']
 
 
-def gen_script(rng, n):
+def gen_script(rng, n, deep=False):
+    if deep:
+        # long run / long stepping, then a long chain of back-steps, then look and continue
+        out = []
+        if rng.random() < 0.8:
+            # a breakpoint late in the program: `run` has to execute whole loops before it stops there
+            out.append('b %d' % rng.choice([n - 1, n - 1, max(0, n - 2), max(0, n - 3), rng.randrange(n)]))
+        if rng.random() < 0.3:
+            out.append('b 0')
+        out += [rng.choice(['r', 'r', 'n'])] * rng.randint(1, 3)
+        if rng.random() < 0.4:
+            out += ['n'] * rng.randint(1, 90)
+        out += ['p'] * rng.choice([1, 5, 30, 63, 64, 65, 70, 100, 130, rng.randint(1, 160)])
+        out += ['s', 'n', 's']
+        if rng.random() < 0.5:
+            out += ['r', 's'] + ['p'] * rng.randint(1, 80) + ['s', 'n']
+        return out
     k = rng.randint(0, 40)
     out = []
     while len(out) < k:
@@ -204,7 +231,13 @@ def _case(i):
     tier, seed, rundir = _RUN['tier'], _RUN['seed'], _RUN['dir']
     rng = C.rng_for(seed, PID, tier, i)
     res = {'i': i, 'items': [], 'hist': {}, 'status': 'ok'}
-    name, prog = gen.gen_case(rng, allow_input=False, weights={'random': 0.3, 'template': 0.3, 'mutant': 0.4})
+    deep = rng.random() < 0.25
+    if deep:
+        # a loop followed by a two-command tail: a breakpoint on the tail makes `run` execute the whole loop
+        name, prog = 'tmpl:countdown(deep)', gen.tmpl_countdown(rng, iters=rng.choice([5, 10, 17, 20, 30, 40, 60]))
+        prog = prog + [(0, 1, 65, None), (1, 1, rng.choice([1, 2]), None)]
+    else:
+        name, prog = gen.gen_case(rng, allow_input=False, weights={'random': 0.3, 'template': 0.3, 'mutant': 0.4})
     lim = Limits(steps=1500)
     m, ro, re_, rend = P.admit(prog, '', lim)
     if rend.startswith('notadmitted') or m.st['stdin_reads']:
@@ -218,7 +251,7 @@ def _case(i):
         res['status'] = 'reject:render'
         return res
     parsed = refparse.parse(text)
-    script = gen_script(rng, len(prog))
+    script = gen_script(rng, len(prog), deep)
     fname = 'd%d_%d.hyeong' % (os.getpid(), i)
     path = P.write_program(rundir, fname, text)
     res['key'] = C.sha(text + '\0' + '\n'.join(script))
@@ -298,6 +331,15 @@ def main(tier, seed):
         ev += 1
         mh = r['hist'].pop('max_history', 1)
         hist['max_history_depth'] = max(hist.get('max_history_depth', 0), mh)
+        for kk in ('max_back_chain', 'longest_run_steps'):
+            vv = r['hist'].pop(kk, 0)
+            hist[kk] = max(hist.get(kk, 0), vv)
+            if kk == 'max_back_chain' and vv >= 64:
+                hist['sessions_with_back_chain>=64'] = hist.get('sessions_with_back_chain>=64', 0) + 1
+            if kk == 'longest_run_steps' and vv >= 64:
+                hist['sessions_with_run>=64_steps'] = hist.get('sessions_with_run>=64_steps', 0) + 1
+        if r['hist'].get('long_run_then_long_back'):
+            hist['sessions_long_run_stopped_then_>=64_back'] = hist.get('sessions_long_run_stopped_then_>=64_back', 0) + 1
         C.add_hist(hist, r['hist'])
         if r['hist'].get('steps', 0) >= 2 and (r['hist'].get('previous') or r['hist'].get('run')):
             keys.add(r['key'])
@@ -319,5 +361,8 @@ def main(tier, seed):
                    'programs are input-free and their output avoids newline, [ and > so that transcripts split unambiguously']
     minimum = {'sessions': (ev, 250), 'previous': (hist.get('previous', 0), 300), 'run': (hist.get('run', 0), 200),
                'state dumps': (hist.get('state', 0), 500), 'breakpoints beyond length': (hist.get('break_beyond_len', 0), 50),
-               'run stopped by breakpoint': (hist.get('run_stop_breakpoint', 0), 30)}
+               'run stopped by breakpoint': (hist.get('run_stop_breakpoint', 0), 30),
+               'sessions with >= 64 consecutive back-steps': (hist.get('sessions_with_back_chain>=64', 0), 10),
+               'sessions with a run of >= 64 steps': (hist.get('sessions_with_run>=64_steps', 0), 10),
+               'long run stopped at breakpoint then >= 64 back-steps': (hist.get('sessions_long_run_stopped_then_>=64_back', 0), 5)}
     return rep.finish(cov, assumptions, t0, minimum)
